@@ -320,6 +320,23 @@ def notifyNameChange : Nat → Nat → M Unit
       | none => pure ()
     forEach nd.childNodes fun e => notifyNameChange fuel e.2
 
+/-- the callback loop of `removeWithName(oldName, fn)` in `renameChildTo`; returns the pinned refs -/
+def renameMoved (target tnode : Nat) (newName : SafeName) (tfile : Nat) : List (Nat × SafeName) → M (List Nat)
+  | [] => pure []
+  | e :: rest => do
+    let r := e.1
+    let x ← getRef r
+    if x.refs > 0 then               -- TryIncRef
+      incRef r
+      whenSome x.parent decRefU      -- drop original parent reference
+      setRef r fun x => { x with parent := some target }
+      incRef target
+      addChild tnode r newName
+      callRenamed x.file tfile newName
+      let ps ← renameMoved target tnode newName tfile rest
+      return r :: ps
+    else renameMoved target tnode newName tfile rest
+
 /-- `renameChildTo` -/
 def renameChildTo (f : Nat) (oldName : SafeName) (target : Nat) (newName : SafeName) : M Unit := do
   let fx ← getRef f
@@ -332,18 +349,10 @@ def renameChildTo (f : Nat) (oldName : SafeName) (target : Nat) (newName : SafeN
   setNode fx.node fun nd => { nd with
     childRefs := nd.childRefs.filter (·.2 != oldName),
     childNodes := nd.childNodes.filter (·.1 != oldName) }
-  forEach moved fun e => do
-    let r := e.1
-    let x ← getRef r
-    if x.refs > 0 then               -- TryIncRef
-      incRef r
-      whenSome x.parent decRefU      -- drop original parent reference
-      setRef r fun x => { x with parent := some target }
-      incRef target
-      addChild tx.node r newName
-      callRenamed x.file tx.file newName
-      decRefU r
-    else pure ()
+  -- TryIncRef pins each reference for its callback; the pins are dropped after childMu is
+  -- released, i.e. after the whole loop (the D9 `fix:`)
+  let pinned ← renameMoved target tx.node newName tx.file moved
+  forEach pinned decRefU
   match orig with
   | some o => do
     -- addPathNodeFor (panics if the name is present – it was just removed by markChildDeleted)
